@@ -1,8 +1,14 @@
 (* C04 - lemmas about the eviction rule (Misc/GC.v). *)
 From Coq Require Import List NArith Bool Arith Lia.
 From Delb.Base Require Import PyStr.
+From Delb.Gen Require Import GenGC.
 From Delb.Misc Require Import GC.
 Import ListNotations.
+
+(* the constants the source uses on this run are the numbers of internal references the object graph
+   has; a changed constant in __gc_callback__ breaks this lemma (and the ones below that rely on it) *)
+Lemma gc_constants : node_base = 4 /\ doc_base = 4 /\ app_base = 3 /\ head_base = 3.
+Proof. vm_compute. repeat split. Qed.
 
 Lemma refs_pos w o : 0 < refs w o <-> In o (held w).
 Proof. unfold refs. split; intros H; apply (count_occ_In Nat.eq_dec); exact H. Qed.
@@ -35,7 +41,7 @@ Qed.
 Lemma node_referenced_false w x : node_referenced w x = false ->
   ~ In (w_id x) (held w) /\ (forall d, w_doc x = Some d -> ~ In d (held w)).
 Proof.
-  unfold node_referenced, threshold, rc_node, rc_doc. intros H. apply Nat.ltb_ge in H.
+  unfold node_referenced, threshold, rc_node, rc_doc, node_base, doc_base. intros H. apply Nat.ltb_ge in H.
   destruct (w_doc x) as [d|].
   - destruct (Nat.eqb_spec (4 + refs w d) 4) as [E|E]; cbn [b2n] in H.
     + split; [apply refs_zero; lia|]. intros d' [= <-]. apply refs_zero. lia.
@@ -45,7 +51,7 @@ Qed.
 
 Lemma node_referenced_true w x : In (w_id x) (held w) -> node_referenced w x = true.
 Proof.
-  intros H. apply refs_pos in H. unfold node_referenced, threshold, rc_node. apply Nat.ltb_lt.
+  intros H. apply refs_pos in H. unfold node_referenced, threshold, rc_node, node_base, doc_base. apply Nat.ltb_lt.
   destruct (w_doc x); [destruct (Nat.eqb _ 4)|]; cbn [b2n]; lia.
 Qed.
 
@@ -53,26 +59,26 @@ Lemma app_ref_false w l : app_ref w l = false -> forall t, In t l -> ~ In (t_id 
 Proof.
   induction l as [|t r IH]; cbn [app_ref]; intros H t' Hin; [destruct Hin|].
   apply orb_false_iff in H. destruct H as [H1 H2]. destruct Hin as [<-|Hin]; [|apply IH; assumption].
-  apply Nat.ltb_ge in H1. unfold rc_text in H1. apply refs_zero. lia.
+  apply Nat.ltb_ge in H1. unfold rc_text, app_base in H1. apply refs_zero. lia.
 Qed.
 
 Lemma app_ref_nothing_held w l : held w = [] -> app_ref w l = false.
 Proof.
   intros Hh. induction l as [|t r IH]; cbn [app_ref]; [reflexivity|]. rewrite IH, orb_false_r.
-  apply Nat.ltb_ge. unfold rc_text, refs. rewrite Hh. cbn. lia.
+  apply Nat.ltb_ge. unfold rc_text, refs, app_base. rewrite Hh. cbn. lia.
 Qed.
 
 Lemma head_ref_false w o app : head_ref w o app = false -> ~ In o (held w).
-Proof. unfold head_ref, rc_head. intros H. apply Nat.ltb_ge in H. apply refs_zero. lia. Qed.
+Proof. unfold head_ref, rc_head, head_base. intros H. apply Nat.ltb_ge in H. apply refs_zero. lia. Qed.
 
 Lemma head_ref_nothing_held w o app : held w = [] -> head_ref w o app = false.
-Proof. intros Hh. unfold head_ref, rc_head, refs. rewrite Hh. cbn [count_occ]. apply Nat.ltb_ge. lia. Qed.
+Proof. intros Hh. unfold head_ref, rc_head, refs, head_base. rewrite Hh. cbn [count_occ]. apply Nat.ltb_ge. lia. Qed.
 
 Lemma keep_nothing_held w x : held w = [] -> keep w x = false.
 Proof.
   intros Hh. unfold keep. rewrite !app_ref_nothing_held, !head_ref_nothing_held by exact Hh.
   rewrite !andb_false_r, !orb_false_r.
-  unfold node_referenced, threshold, rc_node, rc_doc, refs. rewrite Hh. cbn [count_occ].
+  unfold node_referenced, threshold, rc_node, rc_doc, refs, node_base, doc_base. rewrite Hh. cbn [count_occ].
   apply Nat.ltb_ge. destruct (w_doc x); cbn; lia.
 Qed.
 
@@ -278,3 +284,8 @@ Proof.
   induction HF as [|e e' l l' He Hl IH]; [reflexivity|]. cbn [map].
   rewrite (edit_entry w e e' o n) by assumption. f_equal. exact IH.
 Qed.
+
+(* ---------------------------------------------------------------- the lock *)
+(* while a function holds `with _wrapper_cache:` (locks > 0) a collection does nothing at all *)
+Lemma locked_is_identity w : locks w <> 0 -> gc_step w = Some w.
+Proof. intros H. unfold gc_step. apply Nat.eqb_neq in H. rewrite H. reflexivity. Qed.
